@@ -20,6 +20,7 @@ type Clause struct {
 
 // LoopSpec holds the invariants of one loop (by ordinal of the loop head in block order).
 type LoopSpec struct {
+	Steps      []Clause // asserted at every back edge, may refer to the state at the loop head with (atloop e)
 	Invariants []Clause
 	Decreases  *SX
 }
@@ -186,7 +187,9 @@ func (db *ContractDB) loadContractFile(path, pkgPath string) error {
 				key = strings.TrimSpace(rest)
 			}
 			if db.Funcs[key] != nil {
-				return fail("duplicate contract for %s", key)
+				// a later block for the same function adds clauses
+				cur = db.Funcs[key]
+				continue
 			}
 			cur = &FuncContract{Key: key, Pkg: pkgPath, Extern: kw == "extern", Loops: map[int]*LoopSpec{}, Asserts: map[string][]Clause{}, Src: src}
 			db.Funcs[key] = cur
@@ -267,6 +270,13 @@ func (db *ContractDB) loadContractFile(path, pkgPath string) error {
 					return fail("%v", err)
 				}
 				ls.Invariants = append(ls.Invariants, Clause{Name: name, Props: props, SX: sx, Src: src})
+			case "step":
+				name, props, r4 := splitName(r3)
+				sx, err := parseSX(r4)
+				if err != nil {
+					return fail("%v", err)
+				}
+				ls.Steps = append(ls.Steps, Clause{Name: name, Props: props, SX: sx, Src: src})
 			case "decreases":
 				sx, err := parseSX(r3)
 				if err != nil {
